@@ -235,7 +235,7 @@ def _from_parts_contract(it, fv, args, kwargs):
     the decoding switches; with both switches off the tokens are str(p) of the given parts."""
     parts = lib.seq_of(it, args[1])
     ue, ud = lib.T(it, kwargs.get("unicode_escape", S.TRUE)), lib.T(it, kwargs.get("uri_decode", S.FALSE))
-    it.assumed.append("contract:JSONPointer.from_parts(uninterpreted function of the tokens; bounded in C14)")
+    it.assumed.append("summary:JSONPointer.from_parts at call sites is an uninterpreted function of the tokens and the decoding switches (its body without decoding is under JSONPointer.from_parts[no decoding]==tokens; with decoding it is bounded in c14/c16)")
     return from_parts_abs(Py.list(parts), ue, ud)
 
 
@@ -394,3 +394,31 @@ def _truediv_body(ctx):
         return it.to_term(it.run_function(spec_fn(pspec, "truediv_parts"), [Py.tuple(a), Py.str(o), S.mk_int(lo), S.mk_int(hi)], {}))
 
     ctx.equiv("__truediv__", code, spec)
+
+
+@contract("JSONPointer.from_parts[no decoding]==tokens", ("C14", "C16"), [P + "from_parts", P + "__init__"], replay=("from_parts_replay", [], "codec_candidates"))
+def _from_parts_body(ctx):
+    """Escape / URI decoding off: the pointer holds str(p) for every given token and prints their
+    RFC 6901 spelling (through _encode, summarised at the call site; its body has its own contract)."""
+    ps = ctx.seq("parts")
+
+    def elems(it):
+        i = z3.Int("i!fp")
+        it.assume(z3.ForAll([i], z3.Implies(z3.And(i >= 0, i < z3.Length(ps)), z3.Or(Py.is_int(ps[i]), Py.is_str(ps[i])))))
+
+    def code(it):
+        from pyvc.interp import ClassVal
+
+        elems(it)
+        it.inline = set(getattr(it, "inline", ())) | {"jsonpath.pointer:JSONPointer.from_parts"}  # the body itself, not its call-site summary
+        r = it.call(it.getattr(ClassVal(ptr.JSONPointer), "from_parts"), [Py.list(ps)], {"unicode_escape": S.FALSE, "uri_decode": S.FALSE})
+        parts = it.to_term(it.getattr(r, "parts"))
+        return S.mk_tuple([parts, it.to_term(it.getattr(r, "_s"))])
+
+    def spec(it):
+        elems(it)
+        toks = it.to_term(it.run_function(spec_fn(pspec, "from_parts_tokens"), [Py.list(ps)], {}))
+        # an empty token tuple is falsy: the constructor then parses the text it was given, which is ""
+        return S.mk_tuple([toks, Py.str(encode_abs(toks))])
+
+    ctx.equiv("from_parts", code, spec)
